@@ -328,6 +328,94 @@ func main() {
 		return delegs[i].to < delegs[j].to
 	})
 
+	// ---- etcd provider: order of "publish" and "spawn a goroutine that can publish" in the start-up
+	// functions, by flow (calls on the receiver are expanded in place, whatever the helpers are called)
+	prov := map[string]*ast.FuncDecl{}
+	pfiles, _ := filepath.Glob(filepath.Join(*repo, "node/cluster/clusterproviders/etcd", "*.go"))
+	for _, fp := range pfiles {
+		if strings.HasSuffix(fp, "_test.go") {
+			continue
+		}
+		rel, _ := filepath.Rel(*repo, fp)
+		for _, d := range parse(rel).Decls {
+			if fd, ok := d.(*ast.FuncDecl); ok && fd.Body != nil {
+				if _, rt := recvOf(fd); rt == "Provider" {
+					prov[fd.Name.Name] = fd
+				}
+			}
+		}
+	}
+	isPublish := func(c *ast.CallExpr) bool {
+		se, ok := c.Fun.(*ast.SelectorExpr)
+		return ok && se.Sel.Name == "UpdateClusterTopology"
+	}
+	recvCall := func(c *ast.CallExpr, recv string) string {
+		if se, ok := c.Fun.(*ast.SelectorExpr); ok {
+			if id, ok := se.X.(*ast.Ident); ok && id.Name == recv && prov[se.Sel.Name] != nil {
+				return se.Sel.Name
+			}
+		}
+		return ""
+	}
+	reachMemo := map[string]int{} // 1 = in progress / no, 2 = yes
+	var canPublish func(n ast.Node, recv string) bool
+	var reaches func(name string) bool
+	reaches = func(name string) bool {
+		if v, ok := reachMemo[name]; ok {
+			return v == 2
+		}
+		reachMemo[name] = 1
+		fd := prov[name]
+		rn, _ := recvOf(fd)
+		if canPublish(fd.Body, rn) {
+			reachMemo[name] = 2
+			return true
+		}
+		return false
+	}
+	canPublish = func(n ast.Node, recv string) bool {
+		found := false
+		ast.Inspect(n, func(n ast.Node) bool {
+			if c, ok := n.(*ast.CallExpr); ok {
+				if isPublish(c) {
+					found = true
+				} else if m := recvCall(c, recv); m != "" && reaches(m) {
+					found = true
+				}
+			}
+			return !found
+		})
+		return found
+	}
+	var flow func(name string, depth int) []string
+	flow = func(name string, depth int) []string {
+		fd := prov[name]
+		if fd == nil || depth > 10 {
+			return nil
+		}
+		rn, _ := recvOf(fd)
+		var ev []string
+		ast.Inspect(fd.Body, func(n ast.Node) bool {
+			switch x := n.(type) {
+			case *ast.GoStmt:
+				if canPublish(x.Call, rn) {
+					ev = append(ev, "spawn-publisher")
+				}
+				return false
+			case *ast.FuncLit:
+				return false // runs at an unknown time
+			case *ast.CallExpr:
+				if isPublish(x) {
+					ev = append(ev, "publish")
+				} else if m := recvCall(x, rn); m != "" {
+					ev = append(ev, flow(m, depth+1)...)
+				}
+			}
+			return true
+		})
+		return ev
+	}
+
 	var sb strings.Builder
 	sb.WriteString("/-! GENERATED by harness/c08/extract from node/app/clusterservices.go and node/app/cluster.go — do not edit. -/\n")
 	sb.WriteString("namespace Cell2v.Gen.C08\n\n")
@@ -365,6 +453,10 @@ func main() {
 	sb.WriteString("]\n\n")
 	sort.Strings(reassigned)
 	fmt.Fprintf(&sb, "/-- functions of cluster.go that assign the `clusterServices` pointer -/\ndef clusterServicesAssignedIn : List String := %s\n\n", leanList(reassigned))
+	sb.WriteString("/-- (start-up function of the etcd provider, its publications (`UpdateClusterTopology`) and the goroutines it starts that can publish, in execution order; calls on the receiver expanded in place) -/\n")
+	sb.WriteString("def startFlow : List (String × List String) := [\n")
+	fmt.Fprintf(&sb, "  (%q, %s),\n", "StartClient", leanList(flow("StartClient", 0)))
+	fmt.Fprintf(&sb, "  (%q, %s)\n]\n\n", "StartMember", leanList(flow("StartMember", 0)))
 	sb.WriteString("end Cell2v.Gen.C08\n")
 
 	if *out == "" {
